@@ -196,6 +196,7 @@ func resetHolder(h any) {
 // LeanProviders returns 0..3 providers outside the palette (world.LeanH / world.RichH, named).
 func LeanProviders(rng *rand.Rand) []any {
 	out := world.ZeroProviders(rng.Intn)
+	out = append(out, world.NonStructProviders(rng.Intn)...)
 	n := rng.Intn(4)
 	for i := 0; i < n; i++ {
 		name := fmt.Sprintf("lean%d", i)
